@@ -9,11 +9,24 @@ import sys
 import time
 
 VERIF = os.path.dirname(os.path.dirname(os.path.abspath(__file__)))
-MODULES = ["contracts.c04_periods", "contracts.engine", "contracts.c03_requests", "contracts.c06_parameters", "contracts.c16_set_input", "contracts.c13_clone", "contracts.c14_reforms", "contracts.c18_engine", "contracts.c17_storage", "contracts.c15_enums"]
+MODULES = ["contracts.c04_periods", "contracts.engine", "contracts.c03_requests", "contracts.c06_parameters", "contracts.c16_set_input", "contracts.c13_clone", "contracts.c14_reforms", "contracts.c18_engine", "contracts.c17_storage", "contracts.c15_enums", "contracts.c10_groups"]
 
 CAL_THEORY = "calendar (OM/DIM opaque, lemma instances; closed forms = Hinnant days-from-civil), validated against datetime"
 
 PROPS = {
+    "C10": {
+        "theories": ["groups: N persons, count groups, eid: [0,N) -> [0,count) (all symbolic); aggregates are reduction nodes compared pointwise on (group id, weight) per person"],
+        "lemmas": [],
+        "validations": ["numpy"],
+        "assumptions": [
+            "numpy contracts used: bincount (per-group sum of weights; length max(minlength, max+1); sum over a mask selection = masked sum), fancy indexing, where, max, zeros / empty_like, integer item assignment; validated against numpy on every run",
+            "floats are reals",
+            "0 <= eid[i] < count for every person (well-formed membership)",
+        ],
+        "bounded": [],
+        "not_decided": ["reduce / min / max / all, value_nth_person, value_from_person, get_rank (rank-function reasoning over double argsort): not under contract in this version",
+                        "the shortcut resolution of projectors (get_projector_from_shortcut, __getattr__ delegation)"],
+    },
     "C15": {
         "theories": ["numpy array algebra (closures); enumeration model: n members (1 <= n <= 256, symbolic), indices [0..n), names pairwise distinct, enums[i].index == i"],
         "lemmas": [],
